@@ -52,7 +52,12 @@ CLAIMS = {
              "the cached columns equal their definitions after a refresh, and a dispatched step has, on the graph, every "
              "declared input attached and BUILT/CONFIRMED and every recursive creator RUNNING/SUCCEEDED and not holding. "
              "The disciplines are also sampled on the model state after every generated request and on the real "
-             "database by the cache oracle, together with the from-scratch eligibility at every dispatch decision.",
+             "database by the cache oracle, together with the from-scratch eligibility at every dispatch decision. "
+             "Builder side (model of job_loop + HashQueue, every event sequence): the phase ends only when no task runs "
+             "and none waits to be retired; a parked loop has its wake event clear and, with a free slot, no job on offer "
+             "and no unclaimed queued hash job; the inner loop terminates within njob+4 passes; the wake-setting sites "
+             "(_task_done, handle_done_tasks, HashQueue.submit, define_step and release_dispatch handlers) are regenerated "
+             "from the source by ast.",
         note=BASE_NOTE + "Priority among eligible steps is not part of the property. Phase termination is relative to "
              "'every started command terminates' plus the defer cap. The side conditions of the discipline theorems "
              "(constant targets between reconciliations, no raw detach of an output file, no 'safe' definition below a "
@@ -88,12 +93,17 @@ CLAIMS = {
              "still-running step fits the table (both conditions have kernel-checked counterexamples; the second is "
              "the known finding F7, replayed on the real code); after every director history a job that starts a "
              "command belongs to a step all of whose recursive creators are RUNNING/SUCCEEDED and hold nothing (a "
-             "hash CHECK may bypass a hold; it starts no command). The oracle checks resource sums of RUNNING steps and "
-             "holding creators on the real database after every request, and job limit, overlap and hold blocks on "
-             "simulated builds.",
-        note=BASE_NOTE + "The job limit, the overlap of executions in time and hold blocks of whole builds are properties "
-             "of the builder loop: decided by the oracle on simulated builds of the real director (logical clock), not "
-             "by a theorem. F7/F9 (recycling a detached RUNNING step) remain in scope of the oracle.",
+             "hash CHECK may bypass a hold; it starts no command). For the job limit: a model of Builder.job_loop with the "
+             "HashQueue (every sequence of scheduler answers, hash submissions/promotions, task endings and exceptions): "
+             "running_tasks never exceeds njob, promoted work outside the budget is hashing only, every started job is "
+             "accounted for and its completion reported once; the two `<` guards and the absence of other start sites are "
+             "regenerated from the source by ast. The oracle checks resource sums of RUNNING steps and "
+             "holding creators on the real database after every request, the job limit on the real Builder driven by "
+             "event scripts, and job limit, overlap and hold blocks on simulated builds.",
+        note=BASE_NOTE + "The job-loop model is tied to builder.py/hash_queue.py by running the real classes with a stub "
+             "scheduler/executor on the same event scripts; asyncio (tasks, Event, Queue) is trusted. The overlap of "
+             "executions in time and hold blocks of whole builds are in addition decided by the oracle on simulated builds "
+             "of the real director (logical clock). F7/F9 (recycling a detached RUNNING step) remain in scope of the oracle.",
         technique="Lean 4 proof of the dispatch-time resource/hold decision + kernel correspondence + invariant oracle",
         design="9/C12",
     ),
